@@ -361,6 +361,13 @@ def run_hid_owner(prog, rep):
                 continue
             ncopy += 1
             fresh = src.k == 'call' and not (src.callee or {}).get('cls') and NEWID.match((src.callee or {}).get('name') or '')
+            if not fresh and src.k == 'ref' and src.decl.get('kind') == 'local':
+                lv_ = sem.local_vars(f).get(src.decl.get('lid'))
+                if lv_ is not None and lv_.c and lv_.c[0] is not None:
+                    ini = unwrap(lv_.c[0])
+                    if ini.k == 'call' and not (ini.callee or {}).get('cls') and NEWID.match((ini.callee or {}).get('name') or ''):
+                        fresh = True
+                        src = ini
             rule.check(not fresh, '%s|is_copy@%s' % (f.q, x.l), rep.where(x), f.label(), 'is_copy = true on an id owned elsewhere (%s)' % args[0].src(30),
                        'the id just returned by %s is wrapped with is_copy = true: the wrapper adds a second reference and releases only one, so every call leaks a reference '
                        '(for H5Iget_file_id: on the file id - close() returns but libhdf5 keeps the file open, unflushed and locked)' % ((src.callee or {}).get('name')))
